@@ -16,6 +16,21 @@ count, clock, environment, directory names.
   `lowest_perm_invariant` (the explicit (len, key) tie-break of the resolver), `minFunc_unique_min`
   (first-minimum of a comparator with a unique minimum).  The site-specific theorems proved
   elsewhere are referenced: C14.dq_perm_invariant, C10 group_perm_invariant, C09 unify_perm_invariant.
+* The provider choice (`newPkgResolver` appends differently named providers to `nameMap[virtual]` in
+  Go map order; model: the adversarial `order` parameter of `Resolver.nameMap`):
+  `comparePackages_lex` / `comparePackages_swo` (the repaired comparator, F08b, is the lexicographic
+  comparison of a per-package key, hence a strict weak order on ALL packages),
+  `comparePackages_eq_same_name` (its ties are same-name packages),
+  `comparePackages_pinned_not_antisymm` (F08b witness for the pinned comparator),
+  `minFunc_perm_invariant` (first minimum under a strict weak order only depends on the order inside
+  each equivalence class), `nameMap_order_irrelevant` (two orders give permutations that keep
+  same-name packages in place), `bestPackage_order_irrelevant`, `resolvePackage_order_irrelevant`,
+  and the lift to whole resolutions `resolve_order_irrelevant` (every other use of `nameMap` only adds
+  ids to the disqualified SET, which the resolver reads through membership only — a simulation over
+  `constrain`, `disqualifyProviders`, `disqualifyConflicts`, `nextPackage`, `worldLoop`, `depOption`,
+  `depLoop`, `getDeps`, `getPackageWithDependencies`, `resolve`); `resolve_order_dependent_pinned`
+  is the concrete negation for the pinned comparator.
+  Lemmas: `Proofs/Lemmas/Comparator{Order,Lex,Min,NameMap,Dq,Deps,Resolve}.lean`.
 * What the model cannot exhibit (partial): the Go scheduler, pgzip, the runtime's map order, and the
   third-party tarball writer are exercised by the correspondence suite `repro` only (child processes
   under different GOMAXPROCS / TZ / umask / cwd / TMPDIR / environment / cache histories, every output
@@ -24,6 +39,7 @@ count, clock, environment, directory names.
 import Apko.Model.Resolver
 import Apko.Generated.Sites
 import Apko.Proofs.Lemmas.AuditedSites
+import Apko.Proofs.Lemmas.ComparatorResolve
 
 namespace Apko.C01
 open Apko
@@ -335,5 +351,162 @@ theorem minFunc_unique_min (cmp : Pkg → Pkg → Ordering) (l : List Pkg) (b : 
           split
           · intro _; exact hy.1
           · exact hm
+
+/-! ## the provider choice does not depend on the order of `nameMap[virtual]` (F08b repaired) -/
+
+open Resolver in
+/-- T `comparePackages_lex`: for every comparator context and ALL packages (parsable versions or
+not) the repaired comparator is the lexicographic comparison of the per-package key
+(existing-match, origin-match, pin-match, priority ↓, provided version ↓ [unparsable last],
+own version ↓ [unparsable last], name ↑) — the pair-dependent guard in front of the own-version
+step is immaterial (`Cmp.verSteps_eq`). -/
+theorem comparePackages_lex (name pin : Text) (existing : List (Text × Pkg)) (origins : List Text)
+    (a b : Pkg) :
+    comparePackages .eq name pin existing origins a b =
+      ((Cmp.cmpBool (Cmp.kExisting existing a) (Cmp.kExisting existing b)).then <|
+       (Cmp.cmpBool (origins.contains a.origin) (origins.contains b.origin)).then <|
+       (Cmp.cmpBool (a.pin = pin) (b.pin = pin)).then <|
+       (Cmp.cmpNatDesc a.priority b.priority).then <|
+       (Cmp.cmpOptVer (pv (getDepVersionForName a name)) (pv (getDepVersionForName b name))).then <|
+       (Cmp.cmpOptVer (pv a.version) (pv b.version)).then <|
+       cmpText a.name b.name) :=
+  Cmp.comparePackages_eq_lex name pin existing origins a b
+
+open Resolver in
+/-- T `comparePackages_swo`: the repaired comparator is a strict weak order on ALL packages:
+antisymmetric in the three-way sense, `.lt` transitive, `.eq` (incomparability) transitive, and
+`.lt` compatible with `.eq` on both sides. -/
+theorem comparePackages_swo (name pin : Text) (existing : List (Text × Pkg)) (origins : List Text) :
+    let cmp := comparePackages .eq name pin existing origins
+    (∀ a b, (cmp a b).swap = cmp b a) ∧
+    (∀ a b, cmp a b = .lt ↔ cmp b a = .gt) ∧
+    (∀ a b c, cmp a b = .lt → cmp b c = .lt → cmp a c = .lt) ∧
+    (∀ a b c, cmp a b = .eq → cmp b c = .eq → cmp a c = .eq) ∧
+    (∀ a b c, cmp a b = .eq → cmp b c = .lt → cmp a c = .lt) ∧
+    (∀ a b c, cmp a b = .lt → cmp b c = .eq → cmp a c = .lt) := by
+  have h := Cmp.comparePackages_swo name pin existing origins
+  exact ⟨h.swap, h.lt_iff_gt, h.lt_trans, h.eq_trans, fun _ _ _ => h.eq_lt_trans,
+    fun _ _ _ => h.lt_eq_trans⟩
+
+open Resolver in
+/-- T `comparePackages_eq_same_name`: the repaired comparator only ties packages of one name (which
+`nameMap` keeps in index order whatever the map order was). -/
+theorem comparePackages_eq_same_name (name pin : Text) (existing : List (Text × Pkg))
+    (origins : List Text) (a b : Pkg)
+    (h : comparePackages .eq name pin existing origins a b = .eq) : a.name = b.name :=
+  Cmp.comparePackages_eq_same_name name pin existing origins a b h
+
+open Resolver in
+/-- F08b witness: the PINNED comparator (`bothBad = .gt`: both provided versions unparsable ⇒
+"the other one is better") answers `.gt` in both directions on `pa` (provides `virt=abc`) and `pb`
+(provides `virt=xyz`), and `slices.MinFunc` then returns whichever came first; so the full
+statement "the provider choice is order independent" is false for `bothBad = .gt`. -/
+theorem comparePackages_pinned_not_antisymm :
+    comparePackages .gt "virt".toList [] [] [] Cmp.wA Cmp.wB = .gt ∧
+    comparePackages .gt "virt".toList [] [] [] Cmp.wB Cmp.wA = .gt ∧
+    minFunc (comparePackages .gt "virt".toList [] [] []) [Cmp.wA, Cmp.wB] ≠
+      minFunc (comparePackages .gt "virt".toList [] [] []) [Cmp.wB, Cmp.wA] := by
+  refine ⟨Cmp.comparePackages_pinned_not_antisymm.1, Cmp.comparePackages_pinned_not_antisymm.2, ?_⟩
+  rw [Cmp.minFunc_pinned_order_dependent.1, Cmp.minFunc_pinned_order_dependent.2.1]
+  decide
+
+/-- T `minFunc_perm_invariant`: for ANY comparator that is a strict weak order, two candidate lists
+in which every equivalence class appears in the same order (elements of different classes may be
+interleaved arbitrarily; the hypothesis makes the lists permutations of each other) have the same
+first minimum (`slices.MinFunc`). -/
+theorem minFunc_perm_invariant (cmp : Pkg → Pkg → Ordering) (h : Cmp.SWO cmp) (l₁ l₂ : List Pkg)
+    (hcls : ∀ x, l₁.filter (fun y => cmp y x = .eq) = l₂.filter (fun y => cmp y x = .eq)) :
+    Resolver.minFunc cmp l₁ = Resolver.minFunc cmp l₂ :=
+  Cmp.minFunc_perm_invariant h l₁ l₂ hcls
+
+/-- T `nameMap_order_irrelevant`: for two map iteration orders that are permutations of each other
+(e.g. any two permutations of `ownNames u`), `nameMap[name]` is the same multiset of candidates
+and, for every package name, the candidates of that name appear in the same order. -/
+theorem nameMap_order_irrelevant (u : Universe) (o₁ o₂ : List Text) (hp : o₁.Perm o₂) (name : Text) :
+    (Resolver.nameMap u o₁ name).Perm (Resolver.nameMap u o₂ name) ∧
+    ∀ m : Text, (Resolver.nameMap u o₁ name).filter (fun p => p.name = m) =
+      (Resolver.nameMap u o₂ name).filter (fun p => p.name = m) :=
+  Cmp.nameMap_order_irrelevant u o₁ o₂ hp name
+
+open Resolver in
+/-- T `bestPackage_order_irrelevant`: the step `bestPackage(filterPackages(nameMap[virt], …))` of
+`resolvePackage` and of the dependency loop returns the same provider for both orders — for every
+disqualified set, constraint, pins, installed package and comparator context. -/
+theorem bestPackage_order_irrelevant (u : Universe) (o₁ o₂ : List Text) (hp : o₁.Perm o₂)
+    (virt : Text) (dq : List Nat) (version : Text) (dep : Dep) (allowPin preferPin : Text)
+    (installed : Option Pkg) (name pin : Text) (existing : List (Text × Pkg)) (origins : List Text) :
+    minFunc (comparePackages .eq name pin existing origins)
+        (filterPackages (nameMap u o₁ virt) dq version dep allowPin preferPin installed) =
+      minFunc (comparePackages .eq name pin existing origins)
+        (filterPackages (nameMap u o₂ virt) dq version dep allowPin preferPin installed) :=
+  Cmp.bestPackage_order_irrelevant u o₁ o₂ hp virt dq version dep allowPin preferPin installed
+    name pin existing origins
+
+open Resolver in
+/-- T `resolvePackage_order_irrelevant`: with the repaired comparator `resolvePackage` (the choice
+for a world entry) is the same function of (universe, constraint, disqualified set) for both orders. -/
+theorem resolvePackage_order_irrelevant (c : Resolver.Cfg) (hb : c.bothBad = .eq) (o₁ o₂ : List Text)
+    (hp : o₁.Perm o₂) (pkgName : Text) (dq : List Nat) :
+    resolvePackage { c with order := o₁ } pkgName dq = resolvePackage { c with order := o₂ } pkgName dq :=
+  Cmp.resolvePackage_order_irrelevant c hb o₁ o₂ hp pkgName dq
+
+/-- non-vacuity: two orders that are permutations of `ownNames`, for which `nameMap["virt"]` really
+differs (so the theorems above are not about equal lists). -/
+example :
+    let u : Universe := [⟨[], [], [Cmp.wA, Cmp.wB]⟩]
+    let o₁ := ["pa".toList, "pb".toList]
+    let o₂ := ["pb".toList, "pa".toList]
+    o₁ = Resolver.ownNames u ∧ o₁.Perm o₂ ∧
+    Resolver.nameMap u o₁ "virt".toList = [Cmp.wA, Cmp.wB] ∧
+    Resolver.nameMap u o₂ "virt".toList = [Cmp.wB, Cmp.wA] := by
+  refine ⟨by decide, ?_, by decide, by decide⟩
+  exact List.Perm.swap _ _ _
+
+/-! ## … and neither does a whole resolution -/
+
+/-- the full statement: the result of `GetPackagesWithDependencies` (install list, conflicts, ghost
+flags, or the error outcome) does not depend on the map iteration order used by `newPkgResolver` -/
+def ResolveOrderIrrelevant (c : Resolver.Cfg) : Prop :=
+  ∀ o₁ o₂ : List Text, o₁.Perm o₂ → ∀ (world : List Text) (dq₀ : List Nat),
+    Resolver.resolve { c with order := o₁ } world dq₀ = Resolver.resolve { c with order := o₂ } world dq₀
+
+/-- T `resolve_order_irrelevant`: with the repaired comparator (F08b) the statement holds for EVERY
+universe, world, initial disqualified set, install_if mode and pair of orders (no hypothesis on the
+universe: ids need not be unique, versions need not parse). -/
+theorem resolve_order_irrelevant (c : Resolver.Cfg) (hb : c.bothBad = .eq) : ResolveOrderIrrelevant c :=
+  fun o₁ o₂ hp world dq₀ => Cmp.resolve_order_irrelevant c hb o₁ o₂ hp world dq₀
+
+/-- T `resolve_canonical_order`: the configuration the driver executes and the correspondence suite
+validates against the Go code (`order := ownNames u`, ascending) computes what EVERY map order of
+`newPkgResolver` (any permutation of the own names) computes. -/
+theorem resolve_canonical_order (u : Universe) (o : List Text) (hp : o.Perm (Resolver.ownNames u))
+    (installIfFixed : Bool) (addedOrder : List Text → List Text) (world : List Text) (dq₀ : List Nat) :
+    Resolver.resolve ⟨u, o, .eq, installIfFixed, addedOrder⟩ world dq₀ =
+      Resolver.resolve ⟨u, Resolver.ownNames u, .eq, installIfFixed, addedOrder⟩ world dq₀ :=
+  Cmp.resolve_rel (c₁ := ⟨u, o, .eq, installIfFixed, addedOrder⟩)
+    (c₂ := ⟨u, Resolver.ownNames u, .eq, installIfFixed, addedOrder⟩) ⟨rfl, hp, rfl, rfl, rfl, rfl⟩ world dq₀
+
+/-- the F08b universe: `pa` provides `virt=abc`, `pb` provides `virt=xyz` -/
+def f08bCfg (bothBad : Ordering) : Resolver.Cfg :=
+  ⟨[⟨[], [], [Cmp.wA, Cmp.wB]⟩], [], bothBad, true, id⟩
+
+def installedIds (r : Res Resolver.Resolution) : List Nat :=
+  match r with | .ok x => x.install.map (·.id) | _ => []
+
+/-- negation witness for the pinned comparator: world `[virt]` installs `pa` under one map order
+and `pb` under the other. -/
+theorem resolve_order_dependent_pinned : ¬ ResolveOrderIrrelevant (f08bCfg .gt) := by
+  intro h
+  have := congrArg installedIds
+    (h ["pa".toList, "pb".toList] ["pb".toList, "pa".toList] (List.Perm.swap _ _ _) ["virt".toList] [])
+  revert this
+  decide
+
+/-- non-vacuity of `resolve_order_irrelevant`: the repaired configuration on the same universe
+resolves (to `pa`) under both orders. -/
+example : (f08bCfg .eq).bothBad = .eq ∧
+    installedIds (Resolver.resolve { f08bCfg .eq with order := ["pa".toList, "pb".toList] } ["virt".toList] []) = [0] ∧
+    installedIds (Resolver.resolve { f08bCfg .eq with order := ["pb".toList, "pa".toList] } ["virt".toList] []) = [0] := by
+  decide
 
 end Apko.C01
